@@ -89,6 +89,11 @@ type trInFlow struct {
 }
 
 func (f *trInFlow) newLimit(n uint32) uint32 {
+	if n <= f.limit {
+		// Never shrink the window (the configured initial connection window
+		// may be larger than the BDP estimate); n - f.limit would underflow.
+		return 0
+	}
 	d := n - f.limit
 	f.limit = n
 	f.updateEffectiveWindowSize()
@@ -135,11 +140,13 @@ type inFlow struct {
 	delta uint32
 }
 
-// newLimit updates the inflow window to a new value n.
-// It assumes that n is always greater than the old limit.
+// newLimit updates the inflow window to a new value n. The window is never
+// shrunk: a value that is not greater than the current limit is ignored.
 func (f *inFlow) newLimit(n uint32) {
 	f.mu.Lock()
-	f.limit = n
+	if n > f.limit {
+		f.limit = n
+	}
 	f.mu.Unlock()
 }
 
